@@ -19,16 +19,22 @@ RULE = ("A case is a history: `new kind cap cmp ctor init other` followed by ope
         "Configurations: static_set, flat_set<static_vector>, flat_set<inplace-vector-like> x capacity 3,4 x "
         "less<int>, greater<int>, less<>, greater<> (transparent, heterogeneous key type), and for static_set / "
         "flat_set<static_vector> a comparator that is only a strict weak order (`hless`: integers ordered by k/2, so "
-        "equivalent keys are not equal; key universe 0..7). Exhaustive part: from EVERY "
+        "equivalent keys are not equal; key universe 0..7); flat_set<etl::inplace_vector> (kind fv) x capacity 3,4 x the five "
+        "comparators with the members that compile over it (sorted_unique container constructor, all lookups, clear, "
+        "extract, size/empty/max_size, relational operators), each from every reachable set. Exhaustive part: from EVERY "
         "reachable set (every subset of the key universe with at most `cap` elements; universe 0..5, constructed "
         "through every constructor) (a) every lookup member x every key x homogeneous/heterogeneous x const/non-const "
-        "overload, (b) every single modifier (insert via insert/move/emplace/hint of every key, range insert, erase by "
-        "every key / every position / every range, clear, member and free swap, extract, replace), (c) every sequence of "
-        "2 (thorough: 3 over universe 0..4) insert/erase-by-key operations; (d) the same from every reachable set of the "
+        "overload, size()/empty()/full()/max_size() and the six relational operators against the other live set, "
+        "(b) every single modifier (insert via insert/move/emplace/hint of every key, range insert, erase by "
+        "every key / every position / every range, erase_if with six predicates (evens, odds, thirds, all, none), clear, "
+        "member and free swap, extract, replace), (c) every sequence of "
+        "2 (thorough: 3 over universe 0..4) insert / erase-by-key / erase_if(odd) operations; (c') the six relational operators "
+        "on every ordered pair of reachable sets over 4 keys, all four set kinds; (d) the same as (a)-(c) from every reachable set of the "
         "strict-weak comparator; (e) the sorted_unique constructors on every sequence over 4 values of length 2-3 that "
         "violates their precondition (construction line only: the container is adopted as it is); flat_multiset "
-        "construction from every list over 3 values up to length 5 (6) and, for the strict-weak comparator, over 4 values up "
-        "to length 5. Random part (VERIF_SEED): histories of 12-40 operations over all members. "
+        "construction (over static_vector, the inplace-vector-like container and etl::inplace_vector) from every list over 3 "
+        "values up to length 5 (6) and, for the strict-weak comparator, over 4 values up "
+        "to length 5 (inplace_vector: 4). Random part (VERIF_SEED): histories of 12-40 operations over all members. "
         "Every line compares result and full iteration order. A case is non-trivial when it contains an operation "
         "other than `new` that meets a non-empty set or changes the set; distinct = distinct case text.")
 ASSUMPTIONS = ["std::set / std::multiset of libstdc++ 12 with the corresponding std comparator is the reference for spec "
@@ -37,15 +43,21 @@ ASSUMPTIONS = ["std::set / std::multiset of libstdc++ 12 with the corresponding 
                "no member depends on operator== agreeing with the comparator's equivalence any more (static_set::find(key) "
                "and flat_set::erase(key) did; repaired, findings F-C09-ss-find-eq / F-C09-fs-erase-key-eq)",
                "a heterogeneous key is consistent with the order of the set ([associative.reqmts] kl/ku/ke): hypothesis `HetOk`",
+               "the relational operators compare with the element type's operator== / operator< (parameter `Elem` of the "
+               "theorems: any two functions; the harness' element type is int); erase_if takes any predicate",
+               "capacity < 2^64 in the three theorems about etl::inplace_vector members that store the size (C01 hypothesis)",
                "histories respect the documented preconditions: erase positions/ranges inside the set, replace/sorted_unique "
                "input sorted, unique and within capacity (decidable predicates Spec.valid / Spec.validCtor), range and "
                "container constructor input within capacity"]
-TRUSTED = ["hand model Tetl/C09/Model.lean (flat_multiset: the C06 model of gnome_sort, Tetl/C06/Model/Sort.lean) tied to the "
-           "source by the correspondence run (R1) on every run",
+TRUSTED = ["hand model Tetl/C09/Model.lean (flat_multiset: the C06 model of gnome_sort, Tetl/C06/Model/Sort.lean; erase_if / "
+           "operator== / operator<: the C06 models of remove_if, equal, lexicographical_compare; inplace_vector members: the "
+           "C01 model Tetl/C01/Model.lean) tied to the source by the correspondence run (R1) on every run",
            "spec Tetl/C09/Spec.lean validated against libstdc++ std::set/std::multiset (R2) on every run",
-           "the harness' minimal inplace-vector-like container (mini_vec) is test code, modelled by its contract",
-           "const and non-const overloads (and insert(const&)/insert(&&)/emplace) have token-identical bodies and share one "
-           "model definition; each is exercised by the correspondence run (cst=1, via=move/emplace)"]
+           "the harness' minimal inplace-vector-like container (mini_vec) is test code, modelled by its contract; the contract "
+           "is proved to be what the C01 model of etl::static_vector computes (contract_is_static_vector)",
+           "const and non-const overloads (and insert(const&)/insert(&&)/emplace; insert(first,last) and insert(sorted_unique, "
+           "first,last), which forwards to it) share one "
+           "model definition; each is exercised by the correspondence run (cst=1, via=move/emplace, su=1)"]
 _P = "Tetl.C09.Props."
 _LOOK = [_P + "lookup_eq", _P + "hlookup_eq", _P + "step_refines"]
 THEOREMS = {
@@ -62,8 +74,17 @@ THEOREMS = {
     "extract": [_P + "extract_eq", _P + "step_refines"], "replace": [_P + "replace_eq", _P + "step_refines"],
     "riter": [_P + "riter_eq", _P + "step_refines"],
     "new": [_P + "construct_eq", _P + "construct_inv", _P + "inv_history"],
-    "mset": [_P + "multiset_sorted_perm", _P + "multiset_eq_spec"],
+    "mset": [_P + "multiset_sorted_perm", _P + "multiset_eq_spec", _P + "multiset_eq_stable",
+             _P + "multiset_eq_stable_contract", _P + "multiset_eq_stable_inplace_vector", _P + "multiset_spec_stable"],
+    "erase_if": [_P + "setEraseIf_eq", _P + "xstep_refines", _P + "xrun_refines", _P + "xinv_history"],
+    "cmp": [_P + "setEq_eq", _P + "setLt_eq", _P + "relOps_eq", _P + "xstep_refines", _P + "xrun_refines"],
+    "sizes": [_P + "sizes_eq", _P + "sizes_consistent", _P + "xstep_refines", _P + "xrun_refines"],
 }
+# flat_set over etl::inplace_vector (kind=fv) and the container contract
+THEOREMS["new"] += [_P + "fv_construct_eq", _P + "contract_is_static_vector", _P + "static_vector_models_agree"]
+THEOREMS["new"] += [_P + "strictWeak_on_samples"]
+THEOREMS["clear"] += [_P + "fv_clear_eq"]
+THEOREMS["extract"] += [_P + "fv_extract_eq"]
 SEARCH_CAP = 400000
 
 KINDS = ["ss", "fs", "fi"]
@@ -138,8 +159,11 @@ def init_for(ctor, cmp, s, variant):
     return o[::2] + o[1::2]
 
 
-def lookup_lines(cmp, keys, het_ok=True):
-    out = []
+ERASE_IFS = [(2, 0), (2, 1), (3, 0), (3, 2), (1, 0), (7, 6)]      # v % m == r: evens, odds, thirds, all, (almost) none
+
+
+def lookup_lines(cmp, keys, het_ok=True, riter=True):
+    out = ["sizes", "cmp"]
     for op in LOOKUPS:
         for k in keys:
             out.append("%s k=%d" % (op, k))
@@ -149,8 +173,9 @@ def lookup_lines(cmp, keys, het_ok=True):
                 out.append("%s k=%d het=1" % (op, k))
                 if op in ("find", "lower_bound", "upper_bound", "equal_range"):
                     out.append("%s k=%d het=1 cst=1" % (op, k))
-    out.append("riter")
-    out.append("riter cst=1")
+    if riter:
+        out.append("riter")
+        out.append("riter cst=1")
     return out
 
 
@@ -173,7 +198,9 @@ def modifiers(kind, cap, cmp, s, universe):
     for f in range(n + 1):
         for la in range(f, n + 1):
             out.append((["erase_range first=%d last=%d" % (f, la)], "erase_range"))
-    out.append((["clear", "insert k=%d" % universe[0]], "clear"))
+    for m, r in ERASE_IFS:
+        out.append((["erase_if m=%d r=%d" % (m, r), "sizes", "cmp"], "erase_if"))
+    out.append((["clear", "sizes", "insert k=%d" % universe[0]], "clear"))
     for via in ("member", "free"):
         out.append((["swap via=%s" % via, "riter", "swap via=%s" % via], "swap"))
     if kind != "ss":
@@ -182,6 +209,9 @@ def modifiers(kind, cap, cmp, s, universe):
             out.append((["replace c=%s" % fmt_list(order(cmp, c)), "lower_bound k=%d" % universe[2]], "replace"))
     for ks in (universe, universe[::-1], [universe[1], universe[1], universe[3]], []):
         out.append((["insert_range ks=%s" % fmt_list(ks)], "insert_range"))
+    if kind != "ss":      # insert(sorted_unique, first, last): input sorted w.r.t. the comparator and unique
+        for ks in (universe, universe[1:4], universe[::2], universe[-1:], []):
+            out.append((["insert_range ks=%s su=1" % fmt_list(order(cmp, ks)), "sizes"], "insert_range"))
     return out
 
 
@@ -218,11 +248,42 @@ def generate(tier, seed):
                 # (c) every sequence of d insert/erase_key operations from every reachable set
                 depth = 3 if thorough else 2
                 V = U[:5] if thorough else U
-                ops = ["insert k=%d" % k for k in V] + ["erase_key k=%d" % k for k in V]
+                ops = ["insert k=%d" % k for k in V] + ["erase_key k=%d" % k for k in V] + ["erase_if m=2 r=1"]
                 if kind == "ss" or cmp in ("less", "tgreater") or thorough:
                     for s in subsets(V, cap):
                         for seq in itertools.product(ops, repeat=depth):
                             add([new_line(kind, cap, cmp, "range", order(cmp, s)[::-1])] + list(seq), "seq%d/%s" % (depth, cfg))
+    # (c') the six relational operators on EVERY pair of reachable sets over 4 keys (both orders occur as separate pairs)
+    for kind in KINDS + ["fv"]:
+        for cap in CAPS:
+            for cmp in CMPS:
+                for a in subsets(U[:4], cap):
+                    for b in subsets(U[:4], cap):
+                        if kind == "fv":
+                            add([new_line(kind, cap, cmp, "su", order(cmp, a), order(cmp, b)), "cmp"], "cmp/%s/%d/%s" % (kind, cap, cmp))
+                        else:
+                            add([new_line(kind, cap, cmp, "range", a[::-1], b), "cmp", "swap", "cmp"], "cmp/%s/%d/%s" % (kind, cap, cmp))
+    # (c'') flat_set over etl::inplace_vector (kind=fv): only the sorted_unique container constructor, the lookups, clear,
+    #       extract, the size observers and the relational operators compile; each from every reachable set
+    for cap in CAPS:
+        for cmp in CMPS + ["hless"]:
+            cfg = "fv/%d/%s" % (cap, cmp)
+            if cmp == "hless":
+                reach = []
+                for n in range(cap + 1):
+                    for classes in itertools.combinations(range(4), n):
+                        for bits in itertools.product((0, 1), repeat=n):
+                            reach.append([2 * c + b for c, b in zip(classes, bits)])
+                keys = list(range(8)) + [9]
+            else:
+                reach = list(subsets(U, cap))
+                keys = U + [7]
+            for i, s in enumerate(reach):
+                oth = reach[(7 * i + 3) % len(reach)]
+                head = new_line("fv", cap, cmp, "su", order(cmp, s), order(cmp, oth))
+                add([head] + lookup_lines(cmp, keys, riter=False), "lookup/" + cfg)
+                add([head, "extract", "sizes", "cmp", "find k=%d" % keys[1]], "extract/" + cfg)
+                add([head, "clear", "sizes", "cmp", "count k=%d" % keys[1]], "clear/" + cfg)
     # (d) a comparator that is only a strict weak order (`hless` orders by k // 2: equivalent keys need not be equal)
     U8 = list(range(8))
     for kind in ("ss", "fs"):
@@ -261,14 +322,16 @@ def generate(tier, seed):
     for n in range(6):
         for t in itertools.product([0, 1, 2, 3], repeat=n):
             add(["mset kind=fs cmp=hless c=%s" % fmt_list(t)], "mset/hless")
+            if n <= 4 or thorough:
+                add(["mset kind=fv cmp=hless c=%s" % fmt_list(t)], "mset/hless")
     for cmp in CMPS:
-        for kind in ("fs", "fi"):
+        for kind in ("fs", "fi", "fv"):
             for n in range((6 if thorough else 5) + 1):
                 for t in itertools.product([0, 1, 2], repeat=n):
                     add(["mset kind=%s cmp=%s c=%s" % (kind, cmp, fmt_list(t))], "mset/" + cmp)
     for _ in range(20000 if thorough else 2000):
         c = [rnd.randrange(6) for _ in range(rnd.randint(0, 8))]
-        add(["mset kind=%s cmp=%s c=%s" % (rnd.choice(("fs", "fi")), rnd.choice(CMPS), fmt_list(c))], "mset/rand")
+        add(["mset kind=%s cmp=%s c=%s" % (rnd.choice(("fs", "fi", "fv")), rnd.choice(CMPS), fmt_list(c))], "mset/rand")
     # random histories over all members
     branch = {"full": 0, "dup": 0, "new": 0, "erase_absent_with_successor": 0, "erase_present": 0}
     for _ in range(60000 if thorough else 6000):
@@ -317,13 +380,24 @@ def generate(tier, seed):
             elif r < 0.68 and kind != "ss":
                 lines.append("extract")
                 sim.cur = []
-            elif r < 0.71 and kind != "ss":
+            elif r < 0.70 and kind != "ss":
                 c = order(cmp, rnd.sample(universe, rnd.randint(0, cap)))
                 lines.append("replace c=%s" % fmt_list(c))
                 sim.cur = list(c)
-            elif r < 0.75:
+            elif r < 0.73:
+                m = rnd.randint(1, 4)
+                rr = rnd.randrange(m)
+                lines.append("erase_if m=%d r=%d" % (m, rr))
+                sim.cur = [x for x in sim.cur if x % m != rr]
+            elif r < 0.76:
+                lines.append(rnd.choice(("cmp", "sizes")))
+            elif r < 0.80:
                 ks = [rnd.choice(universe) for _ in range(rnd.randint(0, 5))]
-                lines.append("insert_range ks=%s" % fmt_list(ks))
+                if kind != "ss" and rnd.random() < 0.4:
+                    ks = order(cmp, ks)
+                    lines.append("insert_range ks=%s su=1" % fmt_list(ks))
+                else:
+                    lines.append("insert_range ks=%s" % fmt_list(ks))
                 for x in ks:
                     sim.insert(x)
             else:
@@ -361,41 +435,42 @@ def group_of(case):
 
 CLAIMED = True
 TECHNIQUE = ("Lean 4 proof: hand model of static_set / flat_set members (binary-search loops, push_back + rotate swap cycle, "
-             "move-down erase, the three-move static_vector::swap, container moves of extract/replace/constructors, gnome sort "
+             "move-down erase, the three-move static_vector::swap, container moves of extract/replace/constructors, remove_if + "
+             "tail erase of erase_if, equal / lexicographical_compare of the relational operators, gnome sort "
              "of flat_multiset) refines a declarative sorted-list spec for all histories, capacities and strict weak "
              "orders incl. heterogeneous lookups; model tied to the code by exhaustive small-scope + random correspondence runs")
 LEVEL_TEXT = ("The members of static_set and flat_set are modelled loop by loop over a plain list (lower_bound/upper_bound as the "
               "count/step loop, insertion as push_back + the rotate swap cycle, erase as move-down + shrink, swap as the three "
               "moves of static_vector::swap — each a clear + append loop + rotate —, extract/replace/constructors as the container "
-              "moves they perform, reverse iteration, every element access checked). Lean 4 proves, with no bound on history "
+              "moves they perform, erase_if as remove_if + erase of the tail, operator== / operator< as the equal / "
+              "lexicographical_compare loops, size/empty/full/max_size as the forwards they are, reverse iteration, every element "
+              "access checked). Lean 4 proves, with no bound on history "
               "length, capacity or key type and for every comparator that is a strict weak ordering (equivalent keys need not be "
               "equal), that every history of insert/emplace/insert(hint), range insert, erase by key/position/range, clear, swap, "
               "extract, replace, all lookups — the key_type overloads and the heterogeneous K const& overloads, the latter for any "
-              "pair of comparison functions consistent with the order — and reverse iteration never leaves the vector (no .error), "
+              "pair of comparison functions consistent with the order —, reverse iteration and (xrun_refines) erase_if with any "
+              "predicate, the six relational operators against the other live set and the size observers never leaves the vector "
+              "(no .error), "
               "keeps the elements strictly ascending (hence unique) and within capacity, and returns exactly the (position, "
               "inserted) / erased-count / lookup answers of the declarative std::set spec; a new key in a full set returns `full` "
               "and leaves the set unchanged; every constructor on input meeting its precondition builds the spec's set; "
-              "flat_multiset(container) leaves a weakly ascending permutation of the container (multiset_sorted_perm, through the C06 "
-              "gnome-sort theorem). The model is tied to the current source on every run by executing model and implementation on "
+              "flat_multiset(container) — over static_vector, the contract container and etl::inplace_vector — leaves exactly the "
+              "STABLE sort of the container for every strict weak order (multiset_eq_stable: equivalent elements keep their container "
+              "order, the sequence std::multiset builds; gnome sort swaps only adjacent elements strictly out of order). The members "
+              "of flat_set over etl::inplace_vector that compile are written with the C01 model of inplace_vector and proved "
+              "(fv_construct_eq, fv_clear_eq, fv_extract_eq); the container contract of the inplace-vector-like backing is proved equal "
+              "to the C01 model of static_vector (contract_is_static_vector). The model is tied to the current source on every run by executing model and implementation on "
               "the same histories (exhaustive from every reachable set over 6 keys, capacity 3-4, four comparators incl. "
-              "transparent/heterogeneous plus a strict-weak-only comparator over 8 keys, three backings; random long histories) "
+              "transparent/heterogeneous plus a strict-weak-only comparator over 8 keys, four backings; random long histories) "
               "under ASan/UBSan; the spec is validated against libstdc++ std::set/std::multiset on the same histories.")
 LEVEL_NOTE = ("Trusted: Lean kernel + propext/Classical.choice/Quot.sound; the hand model's fidelity outside the explored inputs; "
               "g++-12/ASan; libstdc++ as oracle for spec validation; the comparator is assumed a strict weak ordering. Members "
-              "listed in coverage.correspondence_only are compared on every run but have no loop-level theorem.")
+              "listed in coverage.correspondence_only are compared on every run but have no loop-level theorem. Not provided by "
+              "the library and therefore outside model and run: operator<=> of static_set / flat_set; every flat_set member over "
+              "etl::inplace_vector that needs emplace(pos)/erase/assignment/rbegin of the container (inplace_vector has none: "
+              "insert, emplace, erase, erase_if, replace, range and container constructors, reverse iteration do not compile).")
 # members modelled and compared on every run whose loop-level model has no Lean theorem (yet)
 CORRESPONDENCE_ONLY = [
-    "empty(), max_size(), full(), size(): one-line forwards to the container, observed by the harness on every line "
-    "(state_of), not modelled",
-    "flat_set / flat_multiset over the harness' inplace-vector-like container: the container's emplace / erase / copy / clear are a "
-    "stated contract (miniEmplace / miniErase / miniCtor / miniClear), not tetl code; flat_set's own algorithm on top of it is "
-    "proved (fiEmplace_eq, setEraseKey_eq, step_refines); flat_multiset over it is compared only (the sort itself is the proved "
-    "C06 model)",
-    "erase_if(flat_set, pred) and the relational operators (==, <, ...) of static_set / flat_set: not part of the property "
-    "statement; not modelled, not generated",
     "sorted_unique constructors on input that violates their precondition: compared with 'the container is adopted as it is' "
     "on the construction line only (generator group su_violated); nothing is claimed about later operations",
-    "stability of flat_multiset's sort for a comparator whose equivalence is coarser than == (model = stable spec is compared "
-    "on every run with `hless`; proved are the sorted-permutation property for every strict weak order and equality with the "
-    "spec when == is the equivalence)",
 ]
